@@ -9,6 +9,7 @@
            caller's previous element as an argument), and the constructors of the two iterators that seed GMP's
            global generator (ModularRandIter<Modular<Integer>>, RandomIntegerIterator).
    Part G  Montgomery forms: Montgomery<ruint<K>>::mg_reduc / random / convert, rmint<K,MGA> rand (to_mg, reduction).
+   Part H  GFqExtFast<TT>::init(double) (the digit extraction that indexes the two tables) and random.
 
    No proofs in this file. *)
 From Coq Require Import ZArith List Bool.
@@ -216,3 +217,38 @@ Definition rm_mga_rand (limbs : nat -> Z) (k : nat) (p p1 : Z) (i : nat) : Z * Z
   let R := 2 ^ ru_bits k in
   let st := (v * R) mod p in (st, mg_reduc R p p1 st, i1).
 
+(* ================================================================ Part H: GFqExtFast<TT>::init(double), random *)
+
+(* GFqExtFast<TT>::init(Rep& pad, const double d)   (gfqext.h), d a non-negative integer below 2^53:
+     uint64_t rll = (uint64_t) d;  uint64_t tll = (uint64_t)(d / _dcharacteristic);     [floating-point quotient, truncated]
+     UTT prec = 0;  UTT padl = (UTT)(rll - tll * p);
+     if (padl == p) { padl -= p; tll += 1; }
+     for (j < _degree) { rll >>= _BITS; tll >>= _BITS; prec = (UTT)(rll - tll * p); padl <<= _pceil; padl ^= prec; }
+     pad = (Rep) prec;
+     for (j < _degree) { the same four statements on pad }
+     padl = _low2log[padl];  pad = _high2log[pad];  return addin(pad, padl);
+   `quot` = the truncated floating-point quotient the hardware produced: an ORACLE value (like GMP's answers); the harness
+   prints it for every draw and the check compares it with floor(d / p).
+   ub = width of UTT (the unsigned casts).  Returns (index into _low2log, index into _high2log). *)
+Fixpoint gfqx_digits (n : nat) (ub BITS pceil p : Z) (rll tll prec acc : Z) : Z * Z * Z * Z :=
+  match n with
+  | O => (rll, tll, prec, acc)
+  | S k => let rll1 := Z.shiftr rll BITS in
+           let tll1 := Z.shiftr tll BITS in
+           let prec1 := ucast ub (rll1 - tll1 * p) in
+           gfqx_digits k ub BITS pceil p rll1 tll1 prec1 (Z.lxor (ucast ub (Z.shiftl acc pceil)) prec1)
+  end.
+Definition gfqx_init_indices (ub BITS pceil p : Z) (degree : nat) (d quot : Z) : Z * Z :=
+  let padl0 := ucast ub (d - quot * p) in
+  let '(padl1, tll) := if padl0 =? p then (ucast ub (padl0 - p), quot + 1) else (padl0, quot) in
+  let '(rll2, tll2, prec, padl) := gfqx_digits degree ub BITS pceil p d tll 0 padl1 in
+  let '(_, _, _, pad) := gfqx_digits degree ub BITS pceil p rll2 tll2 prec prec in
+  (padl, pad).
+(* random(g, r) { return init(r, static_cast<double>((UTT) g() % _MODOUT)); }    _MODOUT = 2^(pceil * e) - 1,  e = degree + 1
+   low2log / high2log : the two tables (2^(pceil*e) entries each);  add : the field's addin on exponents *)
+Definition gfqx_modout (pceil : Z) (degree : nat) : Z := 2 ^ (pceil * Z.of_nat (S degree)) - 1.
+Definition gfqx_random (low2log high2log : Z -> Z) (add : Z -> Z -> Z) (ub BITS pceil p : Z) (degree : nat) (quot : Z -> Z) (s : Z) : Z * Z :=
+  let x := lcg_next s in
+  let d := ucast ub x mod gfqx_modout pceil degree in
+  let '(il, ih) := gfqx_init_indices ub BITS pceil p degree d (quot d) in
+  (add (high2log ih) (low2log il), x).
